@@ -42,10 +42,21 @@ theorem berrOf_eq_foldMax (Ar : Arith K Rat) (hdiv : ∀ r d, Ar.div1 r d = r / 
   · have h0 : rwork.getD i 0 ≠ 0 := ne_of_gt (lt_of_le_of_lt hs2 h)
     simp only [gt_iff_lt, h, if_true, h0, ne_eq, not_false_eq_true, smax_eq_max, hdiv, ratio]
 
-/-- **C13 (BERR is the componentwise backward error).** Under the same hypothesis BERR is the
-largest ratio: it bounds every row's `|r_i| / d_i` with `d_i ≠ 0`, it is attained by one of them (or is
-zero when there is none / all residuals vanish), and it is non-negative. -/
-theorem berr_is_max (Ar : Arith K Rat) (hdiv : ∀ r d, Ar.div1 r d = r / d) (s1 s2 : Rat) (hs2 : 0 ≤ s2)
+/-
+**C13 (BERR is the componentwise backward error) — full goal, `berr_is_cwbe_goal`, partly proved.**
+  For `Ar = arithQ` (or `arithQC`), every CSC matrix `A` (any order, duplicates summed), `x`, `b` of
+  length `n`, `tr ∈ {N,T,C}`: if every `d_i := (|op(A)||x| + |b|)_i` is `0` or `> safe2` then
+    berrX Ar tr A safmin eps b x = max_{i : d_i ≠ 0} |b - op(A) x|_i / d_i ,
+  and `d_i = 0 → (b - op(A) x)_i = 0`.
+  Proved below (`berr_is_cwbe_partial`): the safeguarded fold over the two work arrays is exactly that
+  maximum of `|work_i| / rwork_i` over the rows with `rwork_i ≠ 0` (bounds every row, attained, `≥ 0`).
+  Missing: the entrywise reading of the two scatter/gather folds, `resid … = b - op(A) x` and
+  `denom … = |op(A)||x| + |b|` (sum over the stored entries of a row resp. column).  The
+  correspondence check evaluates exactly this right-hand side in rational arithmetic on every case.
+-/
+/-- the proved part of `berr_is_cwbe_goal`: BERR is the largest ratio `|work_i| / rwork_i` — it bounds
+every row with a non-zero denominator, is attained by one of them (or is zero), and is `≥ 0`. -/
+theorem berr_is_cwbe_partial (Ar : Arith K Rat) (hdiv : ∀ r d, Ar.div1 r d = r / d) (s1 s2 : Rat) (hs2 : 0 ≤ s2)
     (work : Array K) (rwork : Array Rat)
     (hsafe : ∀ i, i < rwork.size → rwork.getD i 0 = 0 ∨ s2 < rwork.getD i 0) :
     (∀ i, i < rwork.size → rwork.getD i 0 ≠ 0 → ratio Ar work rwork i ≤ berrOf Ar s1 s2 work rwork) ∧
